@@ -357,7 +357,7 @@ fn tok_dfs(seq: &mut Vec<u8>, lens: &mut Vec<usize>, left: usize, budget: &Budge
 
 pub fn corpus_files() -> Vec<(String, Vec<u8>)> {
     let mut v = Vec::new();
-    if let Ok(rd) = std::fs::read_dir("/repo/tests/res") {
+    if let Ok(rd) = std::fs::read_dir(format!("{}/tests/res", crate::fw::repo_dir())) {
         let mut names: Vec<_> = rd.filter_map(|e| e.ok()).map(|e| e.path()).filter(|p| p.extension().map(|e| e == "txt").unwrap_or(false)).collect();
         names.sort();
         for p in names {
